@@ -20,7 +20,7 @@ TRUSTED = []
 PARALLEL = 12
 
 W = ["mu.lock_slow", "mu.trylock", "mu.rtrylock", "mu.lock", "mu.rlock", "mu.try_acquire_after_timeout", "mu.wait_with_deadline",
-     "mu.unlock", "mu.runlock", "mu.unlock_without_wakeup", "mu.release_spinlock", "mu.spin_test_and_set"]
+     "mu.unlock", "mu.runlock", "mu.unlock_without_wakeup", "mu.release_spinlock", "mu.spin_test_and_set", "mu.unlock_slow"]
 
 
 def groups(tier):
